@@ -287,6 +287,32 @@ def run(seed, tier):
             if run_start is not None:
                 undefined_ranges.append(dict(year=year, status=st, first=run_start, last=run_end))
             results[st] = res
+        # history pass: the tax is a function of (amount, status) ONLY.  The sweep above keeps the status fixed while the
+        # amount moves; here the amount is fixed while the status moves (and each amount is asked twice), so that
+        # anything remembered from the previous call — a last-row memo keyed by the amount alone (seed C07g), a cached
+        # column — shows up as a disagreement with the first pass, replayable as the two-call sequence.
+        hrng = random.Random(f'{seed}/c07/history/{year}')
+        idxs = list(range(len(pts)))
+        if tier != 'thorough' and len(idxs) > 4000:
+            idxs = sorted(hrng.sample(idxs, 4000))
+        sts = [st for st in STATUSES if st in results]
+        last_call = None
+        for i in idxs:
+            order = sts[:]
+            hrng.shuffle(order)
+            for st in order + order[:1]:
+                kind, val = call(mod, members[st], pts[i])
+                checked['calls'] += 1
+                checked['history_calls'] = checked.get('history_calls', 0) + 1
+                first = results[st][i]
+                same = (kind, val) == first or (kind == 'ok' and first[0] == 'ok' and val != val and first[1] != first[1])
+                if not same and kind == first[0] and kind != 'ok':
+                    same = True
+                if not same:
+                    violate(year, st, pts[i], val if kind == 'ok' else kind, first[1] if first[0] == 'ok' else first[0],
+                            'history_dependent', previous_call=last_call,
+                            detail='the same (amount, status) gave a different answer after a different previous call')
+                last_call = dict(income=pts[i], status=st)
         if 'qss' in results and 'mfj' in results:
             for xf, a, b in zip(pts, results['qss'], results['mfj']):
                 checked['qss_pairs'] += 1
